@@ -327,7 +327,7 @@ class Program:
         self._callers = None
 
     # ---- lookup helpers --------------------------------------------------------------
-    _ENV_TY = re.compile(r"cosmwasm_std::(\S*::)?(DepsMut|Deps|Env|MessageInfo|QuerierWrapper|Storage|Api)\b")
+    _ENV_TY = re.compile(r"cosmwasm_std::(\S*::)?(DepsMut|Deps|Env|QuerierWrapper|Storage|Api)\b")
 
     def bundle_layout(self, f):
         """[(synthetic index, k, field name, field type)] — the fields of private parameter structs of a contract function
@@ -339,7 +339,7 @@ class Program:
         if f.path in memo:
             return memo[f.path]
         out = []
-        if f.body is not None and f.kind in ("fn", "assoc_fn") and f.crate in ("halo_pair", "halo_factory", "halo_router"):
+        if f.body is not None and f.kind in ("fn", "assoc_fn") and f.crate in ("halo_pair", "halo_factory", "halo_router", "haloswap"):
             nxt = f.body.arg_count
             serde = {i_.get("self") for i_ in self.impls if str(i_.get("trait", "")).endswith(("Deserialize", "Serialize", "Deserialize<'de>"))}
             for k in range(f.body.arg_count):
@@ -347,7 +347,7 @@ class Program:
                 while ty.startswith("&"):
                     ty = re.sub(r"^&\s*('\w+\s+)?(mut\s+)?", "", ty)
                 a = self.adts.get(ty) or self.adts.get(re.sub(r"<.*$", "", ty))
-                if a is None or a["kind"] != "struct" or not a["path"].startswith(("halo_pair::", "halo_factory::", "halo_router::")):
+                if a is None or a["kind"] != "struct" or not a["path"].startswith(("halo_pair::", "halo_factory::", "halo_router::", "haloswap::")):
                     continue
                 if a["path"] in serde or any(self._ENV_TY.search(x["ty"]) for x in a["variants"][0]["fields"]):
                     continue
@@ -655,7 +655,7 @@ class Program:
             if m is not None:
                 return m
             cf_ = self.fns.get(callee) or self.fns.get(generic_path(callee))
-            if cf_ is not None and cf_.body is not None and cf_.crate in ("halo_pair", "halo_factory", "halo_router"):
+            if cf_ is not None and cf_.body is not None and cf_.crate in ("halo_pair", "halo_factory", "halo_router", "haloswap"):
                 lay = self.bundle_layout(cf_)
                 if lay and len(args) == cf_.body.arg_count:
                     args = args + tuple(proj(args[k_], ("f", nm_)) for (_i, k_, nm_, _t) in lay)      # the bundle's fields as arguments
@@ -997,3 +997,142 @@ def model_std_ctor(fnp, b, callee, args, fr):
             return ("agg", "adt", "cosmwasm_std::SubMsg", (("id", rid), ("msg", _wrap_cosmos(args[0])), ("gas_limit", ("agg", "adt", "std::option::Option::None", ())),
                                                             ("reply_on", ("agg", "adt", "cosmwasm_std::ReplyOn::%s" % ro, ()))))
     return None
+
+
+# ---------------------------------------------------------------------------------------------------------------------------
+# MIR-level inlining of single-call-site helpers (a semantics-preserving normalisation the engine may retry a rule under)
+
+def _shift_json(o, loff, boff, poff):
+    """Deep copy of a MIR JSON fragment with locals shifted by loff, block indices by boff and promoted indices by poff."""
+    if isinstance(o, list):
+        return [_shift_json(x, loff, boff, poff) for x in o]
+    if not isinstance(o, dict):
+        return o
+    out = {}
+    is_place = "l" in o and "p" in o and isinstance(o.get("l"), int)
+    for k, v in o.items():
+        if is_place and k == "l":
+            out[k] = v + loff
+        elif k == "local" and o.get("k") == "index" and isinstance(v, int) and not isinstance(v, bool):
+            out[k] = v + loff
+        elif k in ("target", "unwind", "otherwise") and isinstance(v, int) and not isinstance(v, bool) and "k" in o:
+            out[k] = v + boff
+        elif k == "arms" and o.get("k") == "switch":
+            out[k] = [[a, (t + boff if isinstance(t, int) else t)] for a, t in v]
+        elif k == "promoted" and o.get("k") == "const" and isinstance(v, int):
+            out[k] = v + poff
+        else:
+            out[k] = _shift_json(v, loff, boff, poff)
+    return out
+
+
+def inline_call_json(caller_j, callee_j, call_bb):
+    """caller_j with the call in block call_bb replaced by the callee's body (both are Fn JSON objects with bodies)."""
+    import copy
+    cj = copy.deepcopy(caller_j)
+    body, gb = cj["body"], callee_j["body"]
+    loff, boff, poff = len(body["locals"]), len(body["blocks"]), len(cj.get("promoted", []))
+    blk = body["blocks"][call_bb]
+    t = blk["term"]
+    assert t["k"] == "call" and len(t["args"]) == gb["arg_count"]
+    span = t.get("span", "")
+    body["locals"].extend(copy.deepcopy(gb["locals"]))
+    for i, a in enumerate(t["args"]):
+        blk["stmts"].append({"k": "assign", "place": {"l": loff + 1 + i, "p": [], "ty": gb["locals"][1 + i]["ty"]}, "rv": {"k": "use", "op": a}, "span": span})
+    dest, target = t.get("dest"), t.get("target")
+    blk["term"] = {"k": "goto", "target": boff, "span": span}
+    direct = dest is not None and not dest.get("p")          # a plain destination local takes the callee's return place itself:
+    #                                                            `_0 = Err(e)` in the callee is then `_0 = Err(e)` of the caller, as if written there
+
+    def _retmap(o):
+        if isinstance(o, list):
+            return [_retmap(x) for x in o]
+        if isinstance(o, dict):
+            o2 = {k: _retmap(v) for k, v in o.items()}
+            if "l" in o2 and "p" in o2 and o2["l"] == loff:
+                o2["l"] = dest["l"]
+            return o2
+        return o
+    for gblk in gb["blocks"]:
+        nb = _shift_json(gblk, loff, boff, poff)
+        if direct:
+            nb = _retmap(nb)
+        if nb["term"]["k"] == "return":
+            if dest is not None and not direct:
+                nb["stmts"].append({"k": "assign", "place": dest, "rv": {"k": "use", "op": {"k": "move", "place": {"l": loff, "p": [], "ty": gb["locals"][0]["ty"]}}},
+                                    "span": nb["term"].get("span", span)})
+            nb["term"] = {"k": "goto", "target": target, "span": nb["term"].get("span", span)} if isinstance(target, int) else {"k": "unreachable", "span": span}
+        body["blocks"].append(nb)
+    for dv in gb.get("debug", []):
+        d2 = _shift_json(dv, loff, boff, poff)
+        d2.pop("arg", None)
+        body.setdefault("debug", []).append(d2)
+    if callee_j.get("promoted"):
+        cj.setdefault("promoted", []).extend(copy.deepcopy(callee_j["promoted"]))
+    return cj
+
+
+_DEPS_TY = re.compile(r"cosmwasm_std::(\S*::)?Deps(Mut)?\b")
+
+
+def inline_single_call_helpers(facts, rounds=2):
+    """(new facts, [inlined paths]) — every free function of a contract crate that takes no Deps / DepsMut, does not return
+    Result<(), _> (checks are anchors of their own), and has exactly one call site in production code of the same crate is
+    merged into its caller; closures it defines are re-parented.  The program means the same; rules that anchor on `the
+    function that does X` then see X where a refactoring had moved it out."""
+    import copy
+    facts = {m: dict(j, fns=list(j["fns"])) for m, j in facts.items()}
+    done = []
+    for _ in range(rounds):
+        changed = False
+        for m in ("halo_pair", "halo_factory", "halo_router"):
+            fns = facts[m]["fns"]
+            by_path = {f["path"]: f for f in fns}
+            sites = {}
+            for f in fns:
+                if "body" not in f:
+                    continue
+                test = "::tests::" in f["path"] or "mock_querier" in f["path"] or "::testing::" in f["path"]
+                for b, blk in enumerate(f["body"]["blocks"]):
+                    t = blk["term"]
+                    if t["k"] == "call" and isinstance(t.get("func"), dict) and "fn" in t["func"]:
+                        fr = t["func"]["fn"]
+                        p = fr.get("rpath") or fr.get("path")
+                        if p in by_path:
+                            sites.setdefault(p, []).append((f["path"], b, test, bool(blk.get("cleanup"))))
+            for p, ss in sorted(sites.items()):
+                g = by_path.get(p)
+                prod = [s for s in ss if not s[2]]
+                if g is None or "body" not in g or g.get("kind") != "fn" or g.get("derived") or len(prod) != 1 or "::tests::" in p:
+                    continue
+                cpath, cb, _t, cleanup = prod[0]
+                if cleanup or cpath == p or cpath not in by_path:
+                    continue
+                gb = g["body"]
+                if any(_DEPS_TY.search(gb["locals"][i]["ty"]) for i in range(1, gb["arg_count"] + 1)):
+                    continue
+                if re.match(r"^std::result::Result<\(\), ", gb["locals"][0]["ty"]) or len(gb["blocks"]) > 400:
+                    continue
+                caller = by_path[cpath]
+                t = caller["body"]["blocks"][cb]["term"]
+                if t["k"] != "call" or len(t["args"]) != gb["arg_count"]:
+                    continue
+                # the callee must not (transitively, directly here) call itself
+                if any(s[0] == p for s in sites.get(p, [])):
+                    continue
+                new_caller = inline_call_json(caller, g, cb)
+                fns[fns.index(caller)] = new_caller
+                by_path[cpath] = new_caller
+                if not [s for s in ss if s[2]]:
+                    fns.remove(g)                      # no test calls it either: gone from the program
+                    del by_path[p]
+                for f in fns:
+                    if f.get("parent") == p:
+                        f["parent"] = cpath
+                done.append(p)
+                changed = True
+                break                                  # block indices of other sites in this crate are stale: recompute
+            # after one inlining in this crate, sites are recomputed in the next round
+        if not changed:
+            break
+    return facts, done
